@@ -57,7 +57,10 @@ def notes_entries(fam):
 for pid in READY:
     if pid in CHECKS or pid not in FAM_OF:
         continue
-    e = notes_entries(FAM_OF[pid]).get(pid)
+    ents = notes_entries(FAM_OF[pid])
+    e = ents.get(pid)
+    if e and not e["technique"]:
+        e["technique"] = next((x["technique"] for x in ents.values() if x["technique"]), None)
     if not e or not e["text"]:
         raise SystemExit("no MANIFEST entry text for %s in notes/%s.md" % (pid, FAM_OF[pid]))
     CHECKS[pid] = dict(engine=FAM_OF[pid], design="5/" + pid + " and 11", technique=e["technique"] or "TLA+ spec + TLC + conformance harness",
